@@ -444,8 +444,27 @@ def do_check(spec, pid, tier, seed, work, a, t_start):
 
     def files_of(h): return ([] if h.get('include_units') else [units[u]['c'] for u in h['units']]) + [os.path.join(HARNESS, h['file'])]
 
+    # memory-aware scheduling: a job reserves its expected footprint (harness key 'mem_est', GB; default 3) out of a budget derived
+    # from the machine's RAM, so that a tier with several 8-10 GB queries does not push the others into their ulimit
+    try: ram_gb = int(open('/proc/meminfo').read().split('MemTotal:')[1].split()[0]) // (1024 * 1024)
+    except Exception: ram_gb = 32
+    budget = {'free': max(8, ram_gb - 8)}; budget_cv = threading.Condition()
+    def reserve(gb):
+        gb = min(gb, max(8, ram_gb - 8))
+        with budget_cv:
+            while budget['free'] < gb: budget_cv.wait()
+            budget['free'] -= gb
+        return gb
+    def release(gb):
+        with budget_cv: budget['free'] += gb; budget_cv.notify_all()
+
     def run_one(h, kind, finding=None):
         """kind: 'main' | 'witness' | 'confirm'"""
+        got = reserve(h.get('mem_est', 3))
+        try: return run_one_(h, kind, finding)
+        finally: release(got)
+
+    def run_one_(h, kind, finding=None):
         defs = defs_for(h, findings, skip=finding['id'] if finding else None)
         if kind == 'witness': defs['WITNESS'] = None
         tag = '%s.%s%s' % (h['name'], kind, '.' + finding['id'] if finding else '')
